@@ -139,3 +139,8 @@ package ast
 //@   trusted
 //@   pure allocates
 //@   ensures fresh(result) && result.om != nil
+
+// ---- C06/C01: the local name of a task is its name without the namespace prefix ------------------------
+//@ func (*Task).LocalName
+//@   pure
+//@   ensures result == strTrimPrefix(strTrimPrefix(t.Task, t.Namespace), ":")                       [C06,C01]
